@@ -143,6 +143,11 @@ impl Tokenizer {
         self.err.as_ref()
     }
 
+    /// Raw-text element (title, script, ...) whose content the next call of `next()` will read, "" outside one
+    pub fn raw_tag(&self) -> &str {
+        self.raw_tag.as_str()
+    }
+
     pub fn allow_cdata(&mut self, allow_cdata: bool) {
         self.allow_cdata = allow_cdata;
     }
